@@ -787,7 +787,10 @@ func (t *tree) parseHeaderParam(token item) ast.Node {
 func Expr(str string) (node ast.Node, err error) {
 	var t = &tree{lex: lexExpr("", str)}
 	defer t.recover(&err)
-	return t.parseExpr(0), err
+	node = t.parseExpr(0)
+	// the expression may be followed by more input; let the scanner finish.
+	t.lex.drain()
+	return node, err
 }
 
 // boolAttr returns a boolean value from the given attribute map.
